@@ -1,38 +1,31 @@
 (* C10 property theorems: statements only, each closed by `exact`.
-   `current` = the code as it is now (repairs f11f464, 127fbf4 applied); `legacy` = the code before
-   those repairs (refutations kept as the record of the repaired defects); `prequote` = the code
-   before string constants were escaped (60fb795). *)
+   `current` = the code as it is now: repairs f11f464 (junction keeps inversion), 127fbf4 (slicing),
+   60fb795 (escaped constants), 766ce6b (Or merges only over equal tables), 21e37aa (De Morgan ~),
+   79488b4 (IS NOT TRUE), 596613e (info NOT IN) applied.  `pre4`, `prequote`, `legacy` = the code before
+   the last four / five / all of them: statements about those are the record of the repaired defects. *)
 From Coq Require Import ZArith List Bool String Permutation Sorted.
 From PAFC10 Require Import Model Proofs Proofs2 Proofs3 Proofs4 Proofs5 Proofs6 Witness.
 Import ListNotations.
 
 (* ===== selection ===== *)
 
-(* FULL STATEMENT (all predicates, all well-formed databases): the compiled query holds of a fit
-   exactly when the predicate is true on the stored objects -- REFUTED for the current code
-   (Or-merge over different tables; further witnesses in Witness.v: negated info test, negated test on
-   a NULL column, LIKE semantics, shadowed path segment) *)
+(* the compiled query holds of a fit exactly when the predicate is true on the stored objects: for every
+   predicate tree (and / or / not at every level, merges by name, negated junctions, info and attribute
+   tests, NULL columns) and every fit with unique child names.  Guard: contains / in_ tests on strings
+   on which LIKE is plain substring search, and the computable condition that a negated junction
+   re-merges (neg_ok inside safe_with; its other clauses are vacuous for `current`) *)
+Theorem C10_exact_partial : forall p q f,
+  compile current p = Ok q -> safe_with current false false true false p = true -> wf_fit f = true ->
+  forallb (acond_plain f) (attr_tests p) = true -> sem q f = eval p f.
+Proof. exact exact_current. Qed.
+
+(* FULL STATEMENT without the LIKE guard -- REFUTED (contains("F0") selects the fit named "f0");
+   Witness.v also has the shadowed path segment *)
 Theorem C10_exact_refuted :
   exists p q f, compile current p = Ok q /\ wf_pred p = true /\ wf_fit f = true /\ sem q f <> eval p f.
 Proof. exact exact_refuted. Qed.
 
-(* ... proved for every predicate tree and every fit with unique child names under the explicit guard:
-   Or-merges over equal tables, no negated info test, no negated attribute test, and contains / in_
-   tests on strings on which LIKE is plain substring search *)
-Theorem C10_exact_partial : forall p q f,
-  compile current p = Ok q -> safe_with current false true true true p = true -> wf_fit f = true ->
-  forallb (acond_plain f) (attr_tests p) = true ->
-  sem q f = eval p f.
-Proof. exact (fun p q f Hq Hs W Hp => compile_exact current false true true (or_intror eq_refl) (or_introl eq_refl) p q f Hq Hs W (or_introl eq_refl) Hp). Qed.
-
-(* negated attribute tests are exact too when no attribute column holds NULL *)
-Theorem C10_exact_partial_no_null : forall p q f,
-  compile current p = Ok q -> safe_with current false true true false p = true -> wf_fit f = true ->
-  attrs_defined f = true -> forallb (acond_plain f) (attr_tests p) = true ->
-  sem q f = eval p f.
-Proof. exact (fun p q f Hq Hs W D Hp => compile_exact current false true false (or_intror eq_refl) (or_introl eq_refl) p q f Hq Hs W (or_intror (or_introl D)) Hp). Qed.
-
-(* the junction constructor itself (flatten, group by name, de-duplicate, collapse singletons)
+(* the junction constructor itself (flatten, group by key, de-duplicate, collapse singletons)
    preserves meaning at every well-formed object, for every list of conditions *)
 Theorem C10_junction_partial : forall f vr ci ct,
   (ci = true \/ fix_inverted_merge vr = true) ->
@@ -41,6 +34,15 @@ Theorem C10_junction_partial : forall f vr ci ct,
     mk_junction vr fuel k conds = Ok q -> merge_ok vr ci ct fuel k conds = true ->
     forall o, wf_obj o = true -> holds f q o = jsem k (fun m => holds f m o) conds.
 Proof. exact mk_junction_sem. Qed.
+
+(* negation is exact for every compiled condition, junctions included (De Morgan), under neg_ok *)
+Theorem C10_invert_partial : forall f vr ci ct ca,
+  (ci = true \/ fix_inverted_merge vr = true) ->
+  (ct = true \/ fix_or_tables vr = true) ->
+  (ca = true \/ attrs_defined f = true \/ fix_not_null vr = true) ->
+  forall q q', invert vr q = Ok q' -> neg_ok vr ci ct true ca q = true ->
+  forall o, wf_obj o = true -> holds f q' o = negb (holds f q o).
+Proof. exact invert_sem. Qed.
 
 (* SQLite LIKE is exact substring search when neither string has a wildcard or an upper-case letter *)
 Theorem C10_like_plain : forall p s, plain p = true -> plain s = true -> like_contains p s = substrb p s.
@@ -83,54 +85,52 @@ Proof. exact slices_current. Qed.
 
 (* ===== which predicates the API accepts ===== *)
 
-(* FULL STATEMENT: every well-formed predicate compiles -- REFUTED (~ of a junction, three tables) *)
-Theorem C10_total_refuted :
-  (exists p, wf_pred p = true /\ compile current p = Err ETypeError) /\
-  (exists p, wf_pred p = true /\ compile current p = Err EAssertion).
-Proof. exact total_refuted. Qed.
+(* a well-formed predicate fails to compile only through an And-merge that needs three tables
+   (AssertionError): ~ of a junction, Or of number and string tests on one path are accepted now *)
+Theorem C10_errors_characterised : forall p e,
+  wf_pred p = true -> compile current p = Err e -> e = EAssertion.
+Proof. exact (compile_err_demorgan current eq_refl). Qed.
 
-(* ... and those are the only ways: a well-formed predicate fails to compile only by negating a
-   junction (TypeError) or through a merge that needs three tables (AssertionError) *)
-Theorem C10_errors_characterised : forall vr, fix_not_junction vr = false -> forall p e,
-  wf_pred p = true -> compile vr p = Err e ->
-  (e = ETypeError /\ has_not_junction vr p = true) \/ e = EAssertion.
-Proof. exact compile_err. Qed.
+(* FULL STATEMENT: every well-formed predicate compiles -- REFUTED (a number and a string comparison
+   on one path and-ed together) *)
+Theorem C10_total_refuted : exists p, wf_pred p = true /\ compile current p = Err EAssertion.
+Proof. exact total_refuted. Qed.
 
 Theorem C10_total_partial : forall vr p,
   wf_pred p = true -> junction_free p = true -> exists q, compile vr p = Ok q /\ invertible q.
 Proof. exact compile_junction_free. Qed.
 
-(* the model's errors are the code's exceptions: fuel never runs out *)
+(* the model's errors are the code's exceptions: fuel never runs out; execution never fails *)
 Theorem C10_no_fuel : forall vr p, compile vr p <> Err EFuel.
 Proof. exact compile_no_fuel. Qed.
 
-(* ===== the code with the four proposed repairs applied (`next`; switched off in the check until they land):
-   Or-merges only over equal tables, ~InfoQuery as NOT IN, NotCondition as IS NOT TRUE, ~junction by De Morgan.
-   The guard keeps only LIKE-plain strings and the computable condition that negated junctions re-merge;
-   the four former refutations are exact (Witness.next_repairs) ===== *)
+Theorem C10_no_sql_error : forall db p, model_query current db p <> Err ESql.
+Proof. exact no_sql_error. Qed.
 
-Theorem C10_next_exact_partial : forall p q f,
-  compile next p = Ok q -> safe_with next false false true false p = true -> wf_fit f = true ->
-  forallb (acond_plain f) (attr_tests p) = true -> sem q f = eval p f.
-Proof. exact exact_next. Qed.
+(* ===== record of the repaired defects (statements about the code before the repairs) ===== *)
 
-Theorem C10_next_pipeline_partial : forall p q db top_only keys slices,
-  compile next p = Ok q -> guard_next p db ->
-  run_slices next top_only (ordered keys (select q db)) slices =
-  spec_slices top_only (ordered keys (filter (eval p) db)) slices.
-Proof. exact pipeline_exact_next. Qed.
+(* before 766ce6b / 596613e / 79488b4 / 21e37aa: Or-merge over different tables, negated info test,
+   negated test on a NULL column gave wrong sets; ~ of a junction and Or of number/string tests raised *)
+Theorem C10_pre4_legacy_refuted :
+  (exists q, compile pre4 p_join = Ok q /\ sem q f0 <> eval p_join f0) /\
+  (exists q, compile pre4 p_ninfo = Ok q /\ sem q f2 <> eval p_ninfo f2) /\
+  (exists q, compile pre4 p_nattr = Ok q /\ wf_fit f_null = true /\ sem q f_null <> eval p_nattr f_null) /\
+  compile pre4 p_notj = Err ETypeError /\ compile pre4 p_tab3 = Err EAssertion.
+Proof. exact pre4_exact_refuted. Qed.
 
-(* negation is exact for every compiled condition, junctions included, under neg_ok *)
-Theorem C10_invert_partial : forall f vr ci ct ca,
-  (ci = true \/ fix_inverted_merge vr = true) ->
-  (ct = true \/ fix_or_tables vr = true) ->
-  (ca = true \/ attrs_defined f = true \/ fix_not_null vr = true) ->
-  forall q q', invert vr q = Ok q' -> neg_ok vr ci ct true ca q = true ->
-  forall o, wf_obj o = true -> holds f q' o = negb (holds f q o).
-Proof. exact invert_sem. Qed.
+(* what could fail to compile before 21e37aa *)
+Theorem C10_pre4_errors_characterised : forall vr, fix_not_junction vr = false -> forall p e,
+  wf_pred p = true -> compile vr p = Err e ->
+  (e = ETypeError /\ has_not_junction vr p = true) \/ e = EAssertion.
+Proof. exact compile_err. Qed.
 
-(* ===== record of the repaired defects (statements about the code before f11f464 / 127fbf4) ===== *)
+(* before 60fb795 a constant containing a single quote made the query raise *)
+Theorem C10_prequote_legacy_refuted :
+  exists p f, eval p f = true /\ model_query prequote [f] p = Err ESql /\
+              exists l, model_query current [f] p = Ok l /\ map fid l = [fid f].
+Proof. exact prequote_refuted. Qed.
 
+(* before f11f464 / 127fbf4 *)
 Theorem C10_legacy_exact_refuted :
   exists p q f, compile legacy p = Ok q /\ wf_pred p = true /\ wf_fit f = true /\ sem q f <> eval p f.
 Proof. exact legacy_exact_refuted. Qed.
@@ -139,18 +139,8 @@ Theorem C10_legacy_slice_refuted :
   exists L sl, run_slices legacy false L [sl] <> spec_slices false L [sl].
 Proof. exact legacy_slice_refuted. Qed.
 
-(* before 60fb795 a constant containing a single quote made the query raise; now it is an ordinary constant *)
-Theorem C10_prequote_refuted :
-  exists p f, eval p f = true /\ model_query prequote [f] p = Err ESql /\
-              exists l, model_query current [f] p = Ok l /\ map fid l = [fid f].
-Proof. exact prequote_refuted. Qed.
-
-(* string constants never make the current code raise: execution fails only for a shadowed path segment *)
-Theorem C10_no_sql_error : forall db p, model_query current db p <> Err ESql.
-Proof. exact no_sql_error. Qed.
-
 Print Assumptions C10_exact_partial.
 Print Assumptions C10_pipeline_partial.
 Print Assumptions C10_ops_canonical_partial.
-Print Assumptions C10_junction_partial.
-Print Assumptions C10_slice_exact.
+Print Assumptions C10_invert_partial.
+Print Assumptions C10_errors_characterised.
